@@ -864,3 +864,19 @@ def _share_symbol_validation():
 
 
 M.after_load = _share_symbol_validation
+
+
+# ====================================================================================== F: superfluous source in [act]
+# "A test case with ... a syntax error is rejected and nothing is executed": the act-phase parser of the program
+# actor must reject lines that follow the command after blank lines (`_syntax_error_if_not_at_eof`); its contract is
+# stated over C07's ParseSource contracts and lives there; it carries C03 as well.  (Seeded change C03-s3.)
+_share_symbol_validation_0 = M.after_load
+
+
+def _share_more():
+    _share_symbol_validation_0()
+    from contracts.common import share_contracts
+    share_contracts('C03', 'contracts.C07_document', lambda q: q.endswith(':_syntax_error_if_not_at_eof'))
+
+
+M.after_load = _share_more
